@@ -18,7 +18,13 @@ pub fn gen_spec(ch: &mut Ch) -> WorldSpec {
     let upload = ch.below(2, "d.upload") == 1;
     let szx = ch.below(3, "d.szx") as u8;
     let size = 16usize << szx;
-    let len = ch.below(3 * size as u64 + 2, "d.len") as usize;
+    // every length 0..3*size+1; now and then the block-number boundaries
+    // 15/16/17 and 255/256/257 (one- vs two-byte block option values, u8 wrap)
+    let len = match ch.weighted(&[80, 10, 10], "d.len.mode") {
+        0 => ch.below(3 * size as u64 + 2, "d.len") as usize,
+        1 => 15 * size + ch.below(2 * size as u64 + 2, "d.len.16") as usize,
+        _ => (255 * size + ch.below(2 * size as u64 + 2, "d.len.256") as usize).min(if upload { 5000 } else { 20_000 }),
+    };
     let path = vec![seg("d")];
     let opts = if ch.below(3, "d.opts") == 0 { vec![(4u16, vec![vec![0xE7, 0x01]]), (12, vec![vec![42]])] } else { vec![] };
     let token_len = *ch.pick(&[0usize, 4, 8, 1], "d.toklen");
@@ -44,7 +50,7 @@ pub fn gen_spec(ch: &mut Ch) -> WorldSpec {
             a.kind = TKind::Upload { body_id: 9_000 + ch.below(1000, "d.ab.body"), len: (ab as usize + 1) * (16usize << pszx), szx: pszx, dups: vec![], abandon_after: Some(ab), adapt: false };
             transfers.push(a);
         }
-        t.kind = TKind::Upload { body_id: ch.below(1 << 32, "d.body"), len, szx, dups, abandon_after: None, adapt: false };
+        t.kind = TKind::Upload { body_id: ch.below(1 << 32, "d.body") | if ch.chance(1, 2, "d.patterned") { BODY_PATTERNED } else { 0 }, len, szx, dups, abandon_after: None, adapt: false };
         let ro = request_overhead(&t, Some((200, true, szx)), None);
         // budgets that admit the client's block size: exactly, +1 .. +40
         budget = ro + 12 + size + ch.weighted(&[20, 10, 5, 5, 60], "d.budget.up").min(3) + if ch.below(2, "d.budget.up.more") == 1 { ch.below(38, "d.budget.up.d") as usize } else { 0 };
@@ -70,22 +76,27 @@ pub fn gen_spec(ch: &mut Ch) -> WorldSpec {
         };
     }
     transfers.push(t.clone());
-    // a second transfer on the same key right after (state left behind?)
+    // more transfers on the same key right after (state left behind? leaking
+    // from one finished transfer into the N-th one?)
     if ch.chance(1, 3, "d.again") {
-        let mut t2 = t;
-        t2.probe = Probe::None;
-        if let TKind::Upload { body_id, dups, .. } = &mut t2.kind {
-            *body_id += 1;
-            for d in dups.iter_mut() {
-                *d = 0;
+        let n = 1 + ch.weighted(&[70, 15, 10, 5], "d.again.n") * 5 + ch.below(3, "d.again.n2") as usize;
+        let n = if len > 3 * size + 1 { 1 } else { n };
+        for i in 0..n {
+            let mut t2 = t.clone();
+            t2.probe = Probe::None;
+            if let TKind::Upload { body_id, dups, .. } = &mut t2.kind {
+                *body_id += 1 + i as u64;
+                for d in dups.iter_mut() {
+                    *d = 0;
+                }
             }
+            transfers.push(t2);
         }
-        transfers.push(t2);
     }
     WorldSpec {
         server: ServerCfg { budget, expiry_ns: 1_000_000 * SEC, check_wire: false, snapshots: false, feed_all_types: false, record_held: false, held_every: 1, held_always_from: 0 },
         resources,
-        clients: vec![ClientSpec { ep: 100, lanes: vec![LaneSpec { transfers, timeout_ms: 2000 }], mid0: ch.below(65536, "d.mid0") as u16, tok_seed: ch.below(1 << 32, "d.tok"), net: NetCfg::clean(1), via_proxy: false }],
+        clients: vec![ClientSpec { ep: 100, lanes: vec![LaneSpec { transfers, timeout_ms: 2000 }], mid0: if ch.chance(1, 6, "d.mid0.wrap") { 65_520 + ch.below(16, "d.mid0") as u16 } else { ch.below(65536, "d.mid0") as u16 }, tok_seed: ch.below(1 << 32, "d.tok"), net: NetCfg::clean(1), via_proxy: false }],
         max_events: 5_000,
         slow_app_pm: 0,
     }
